@@ -1,12 +1,12 @@
 SPECIFICATION Spec
 CONSTANTS
-  NG = 1
+  NG = 2
   NO = 1
-  ND = 1
-  NP = 1
+  ND = 2
+  NP = 2
   Names = {"a", "b"}
   Vals = {1, 2}
-  Acts = {"CreateGroup", "CreateObject", "AddData", "Rename", "SetFlag", "SetVal", "Move", "AddToGroup", "RemoveFromGroup", "RemovePG", "RemoveViaWorkspace", "RemoveViaParent", "DropRef", "Collect", "Purge", "Copy", "Close", "Open", "MoveSame", "StripOpt"}
+  Acts = {"CreateGroup", "CreateObject", "AddData", "AddToGroup", "Copy2", "Remove2", "SetVal", "Rename", "Close", "Open", "Copy"}
   Deviations = {"CloseKeepsOrphans"}
   MaxDepth = 6
 CONSTRAINT DepthBound
